@@ -2549,6 +2549,18 @@ PPL::Polyhedron::simplify_using_context_assign(const Polyhedron& y) {
             non_redundant_eq.insert(non_redundant_ineq_i);
             ++num_non_redundant_eq;
           }
+          else {
+            // A masked equality may only follow from several inequalities
+            // of x_cs taken together (e.g., `A <= 2' and `A >= 2'): none
+            // of the inequalities saturated by the whole intersection
+            // can be safely dropped.
+            non_redundant_eq.insert(non_redundant_ineq_i);
+          }
+        }
+        else if (sat_i.empty() && i >= y_cs_num_ineq) {
+          // Same as above: this inequality of x_cs may be needed, together
+          // with those already selected, to obtain a masked equality.
+          non_redundant_eq.insert(non_redundant_ineq_i);
         }
       }
       // Here we have already found all the needed (masked) equalities.
